@@ -3,6 +3,7 @@ import PercevalModel.Model.C04
 import PercevalModel.Model.C04Trim
 import PercevalModel.Model.C04Session
 import PercevalModel.Model.C04Generic
+import PercevalModel.Model.C04TrimDet
 
 open Lean PM PM.Proto PM.Fock PM.Dist PM.SimSpec PM.SimProto PM.C04
 
@@ -62,6 +63,23 @@ def trimGap (eng : Fock → D) (P : PM.C04.Prec) (c : Cfg) (members : List Membe
   let g2 := ((keptθ P c members).map fun mb =>
     tensorGap (θ / (10 * mb.w)) (mb.groups.map (groupDist eng c mb.n))).foldl min 1
   min g1 g2
+
+/-- margin of the comparisons of the per-state `list_tensor_product` of `simulate_detectors` -/
+def detStateGap (θ : ℚ) : List Kern → Fock → ℚ → ℚ
+  | K :: Ks, a :: t, p =>
+    ((K a).map fun jq =>
+      let g0 := relGap jq.2 θ
+      if jq.2 ≤ θ then g0
+      else if p * jq.2 < θ then min g0 (relGap (p * jq.2) θ)
+      else min g0 (min (relGap (p * jq.2) θ) (detStateGap θ Ks t (p * jq.2)))).foldl min 1
+  | _, _, _ => 1
+
+def detGap (θ : ℚ) (ds : List Det) (Y : D) : ℚ :=
+  if allThr ds then 1
+  else ((mergeD Y).map fun e =>
+    let rows := rowsOf (ds.map Det.kern) e.1
+    if rows.length < 2 || rows.any List.isEmpty then 1
+    else detStateGap (thrOf θ e.2) (ds.map Det.kern) e.1 1).foldl min 1
 
 def heraldsOfJson (m : ℕ) (j : Json) : Except String (List (ℕ × ℕ)) := do
   let hs ← (← j.getArr?).toList.mapM fun h => do
@@ -183,7 +201,57 @@ def handle (j : Json) : Json :=
         ("droppedEntries", toJson (X.length - Xθ.length)),
         ("prunedEntries", toJson (((keptθ P c members).map fun (mb : PM.C04.Member) =>
             (memberDist eng c mb).length - (memberDistθ eng c (pThreshold P c members) mb).length).sum)),
+        ("keptN", toJson (kept c members).length), ("entriesX", toJson X.length),
+        ("aprioriTheta", ratToJson (pThreshold P c members * (((kept c members).length : ℚ) + (X.length : ℚ) / 10))),
+        ("apriori", ratToJson (max P.minp P.prec * ((members.length : ℚ) + (X.length : ℚ) / 10))),
         ("gap", ratToJson (trimGap eng P c members))]
+    | "c04trimdet" =>
+      -- trimming on a layout with a non-PNR detector (mask off, `simulate_detectors` with its per-state threshold)
+      let ⟨m, U⟩ ← matOfJson j
+      let members ← (← arrOf j "members").toList.mapM memberOfJson
+      if members.any (fun mb => mb.groups.any (·.length ≠ m)) then throw "bad group size"
+      if members.any (fun mb => mb.groups.isEmpty) then throw "member without group"
+      let c ← cfgOfJson m (← j.getObjVal? "cfg")
+      let P : PM.C04.Prec := ⟨← ratOfJson (← j.getObjVal? "prec"), ← ratOfJson (← j.getObjVal? "minp")⟩
+      if P.prec < 0 || P.minp < 0 then throw "negative precision"
+      let ds ← detsOfJson m j "dets"
+      if allPnr ds then throw "all detectors are PNR: use c04trim"
+      let tab := engTable U members
+      let eng : Fock → D := fun s => (tab.lookup s).getD []
+      let fullD := detectedFull eng m ds members
+      let sc := cond c
+      let c' : Cfg := { c with pnr := false }
+      let θ := pThreshold P c members
+      let E := detFullU eng c ds members
+      let Eθ := detTrimU eng P c ds members
+      let X := mix ((kept c members).map fun (mb : PM.C04.Member) => (mb.w, memberDist eng c' mb))
+      let Xt := codeResθ eng P c' members
+      let Y := detInθ eng P c members
+      let Dθ := detResθ eng P c ds members
+      let sizes : ℚ := ((kept c members).length : ℚ) + (X.length : ℚ) / 10 + (E.length : ℚ)
+      return Json.mkObj [
+        ("trimmed", outToJson (probsSvdDetθ eng P c ds members)),
+        ("model", outToJson (probsSvdDet eng c ds members)),
+        ("spec", Json.mkObj [("results", distToJson (conditioned sc fullD)),
+                             ("phys", ratToJson (physPerf sc fullD)),
+                             ("logical", ratToJson (logicalPerf sc fullD)),
+                             ("retained", ratToJson (mass (retained sc fullD)))]),
+        ("theta", ratToJson θ),
+        ("physInputs", ratToJson (physInputs c members)),
+        ("inputLoss", ratToJson (physInputs c members - mass Xt)),
+        ("trimmedMass", ratToJson (trimmedMassDet eng P c ds members)),
+        ("trimmedPass", ratToJson (trimmedPassDet eng P c ds members)),
+        ("trimmedRetained", ratToJson (trimmedRetainedDet eng P c ds members)),
+        ("passTrimmed", ratToJson (mass (restrict (physOk sc) Eθ))),
+        ("retainedTrimmed", ratToJson (mass (restrict (fun t => physOk sc t && logicOk sc t) Eθ))),
+        ("droppedMembers", toJson ((kept c members).length - (keptθ P c' members).length)),
+        ("prunedEntries", toJson (((keptθ P c' members).map fun (mb : PM.C04.Member) =>
+            (memberDist eng c' mb).length - (memberDistθ eng c' θ mb).length).sum)),
+        ("detDropped", toJson ((detect (ds.map Det.kern) (mergeD Y)).length - Dθ.length)),
+        ("keptN", toJson (kept c members).length), ("entriesX", toJson X.length), ("entriesE", toJson E.length),
+        ("aprioriTheta", ratToJson (θ * sizes)),
+        ("apriori", ratToJson (max P.minp P.prec * ((members.length : ℚ) + (X.length : ℚ) / 10 + (E.length : ℚ)))),
+        ("gap", ratToJson (min (trimGap eng P c' members) (detGap θ ds Y)))]
     | "c04gen" =>
       -- superposed inputs: the code-shaped model of `_probs_svd_generic` (masked group amplitudes, interference)
       -- next to the specification (conditioning of `probsSVD`)
